@@ -15,35 +15,10 @@ RUN_TRUSTED = [
 RUN_ASSUMPTIONS = [
     "generated projects are built from harness/run/gen.py's description language (nesting ≤ 3, ≤ 12 tests, all fixture scopes, hooks, depends_on, "
     "disabled tests/suites, lcc.Thread joined before the next act); user code only uses the public API",
-    "KeyboardInterrupt is delivered while the main thread waits for a completion (the delivery inside pool.apply_async is the sched stream of C08)",
+    "KeyboardInterrupt is delivered while the main thread waits for a completion (the delivery inside pool.apply_async is the sched stream of C08); "
+    "interrupted runs are ordinary cases: every oracle applies to them unchanged (teardown order, stream grammar, verdicts) — "
+    "fix D11 made skip_all_tasks release the remaining tasks in dependency order",
 ]
-
-# D11: after a keyboard interrupt with >= 2 workers `skip_all_tasks` schedules every remaining task at once, ignoring
-# dependencies: teardown / suite-end tasks run while tests are still in flight.  The oracle signatures it produces are
-# generic (a missing dependency edge would produce the same ones WITHOUT an interrupt), so they are re-labelled
-# only when an interrupt was really delivered with nb_threads >= 2; everything else stays a violation.
-D11_FAMILY = (
-    "C03/enclosing-scope-torn-down-first/", "C03/teardown-before-dependent-fixture/", "C03/teardown-before-last-use/",
-    "C03/teardown-missing/", "C08/teardowns/", "C07/event-after-suite-end", "C07/result-outside-open-suite",
-    "C07/suite-end-with-open-children", "C07/fired/", "C02/failed-without-failure/", "C01/run-raised/LemoncheesecakeException",
-    "C08/interrupt/unsuccessful", "C07/stream-truncated", "C07/no-session-end", "C01/test-without-terminal-status",
-    "C03/consumer-ran-after-failed-setup", "C08/aborting-test-not-failed",
-)
-D11_SIG = "interrupt-with-threads-tears-down-under-running-tests"
-
-
-def relabel_d11(prop, case, obs, fails):
-    delivered = any(r[0] == "interrupt" for r in obs.get("trace", []))
-    if not (delivered and case["project"]["nb_threads"] >= 2):
-        return fails
-    out = []
-    for f in fails:
-        if f.signature.startswith(D11_FAMILY):
-            out.append(C.Failure(f"{prop}/{D11_SIG}", f.message, {"original_signature": f.signature}))
-        else:
-            out.append(f)
-    return out
-
 
 class PropRunStream(RunStream):
     """RunStream whose oracle failures are mapped to the owning property's finding signatures."""
@@ -52,7 +27,6 @@ class PropRunStream(RunStream):
 
     def oracle(self, case, obs):
         fails = super().oracle(case, obs)
-        fails = relabel_d11(self.prop, case, obs, fails)
         if self.keep_prefixes is not None:
             fails = [f for f in fails if f.signature.startswith(tuple(self.keep_prefixes)) or f.signature.startswith(self.prop + "/")]
         # a failure carrying another property's signature (the oracles share code) is that property's business: its own
